@@ -1,0 +1,111 @@
+//go:build verif
+
+package interp
+
+// Copyright ©2026 The Gonum Authors. All rights reserved.
+// Use of this source code is governed by a BSD-style
+// license that can be found in the LICENSE file.
+
+// Machine-checked contracts for the piecewise constant and piecewise linear
+// interpolators of this package (verification hook, build tag verif; this file
+// contains comments only). The contract language and the checker are described in
+// /verif/DESIGN.md. The cubic interpolators (cubic.go) are not under contract.
+//
+// Fit: panics exactly as documented (length mismatch, fewer than 2 points, xs not
+// strictly increasing) before anything is stored, and stores copies of the data.
+// "Strictly increasing" is written with the comparison each Fit uses (recursive
+// definitions increasing / stepsPositive, one conjunct per pair of neighbours):
+//   PiecewiseConstant: !(xs[k+1] <= xs[k]),   PiecewiseLinear: !(xs[k+1]-xs[k] <= 0).
+// For finite values both are xs[k] < xs[k+1].
+// FINDING (reproduced, minor): elements that do not compare are accepted although xs is
+// then not strictly increasing: both Fit methods return nil for xs = [0, NaN, 1], and
+// PiecewiseLinear.Fit for xs = [+Inf, +Inf] (the difference is NaN); PiecewiseConstant.Fit
+// panics for the latter. The stronger reading "forall k: xs[k] < xs[k+1]" is therefore not
+// what "panics iff !valid" states below.
+
+//@ spec rec increasing(xs []float64, i int, n int) bool decreases n - i =
+//@      ite(i >= n-1, true, !(xs[i+1] <= xs[i]) && increasing(xs, i+1, n))
+//@ spec rec stepsPositive(xs []float64, i int, n int) bool decreases n - i =
+//@      ite(i >= n-1, true, !(xs[i+1]-xs[i] <= 0) && stepsPositive(xs, i+1, n))
+
+//@ func PiecewiseConstant.Fit props: C18
+//@ requires pc != nil
+//@ valid len(ys) == len(xs) && len(xs) >= 2 && increasing(xs, 0, len(xs))
+//@ panics iff !valid, before-writes
+//@ modifies pc
+//@ ensures len(pc.xs) == len(xs) && len(pc.ys) == len(xs)
+//@ ensures (forall(k, 0, len(xs), same(pc.xs[k], xs[k]) && same(pc.ys[k], ys[k])))
+//@ loop 1: invariant increasing(xs, 0, len(xs)) == increasing(xs, i-1, len(xs))
+
+// calculateSlopes (helper of PiecewiseLinear.Fit and of the cubic fits): the documented panics,
+// and slopes[k] is exactly (ys[k+1]-ys[k])/(xs[k+1]-xs[k]) in a new slice.
+//@ func calculateSlopes props: C18
+//@ valid len(xs) >= 2 && len(ys) == len(xs) && stepsPositive(xs, 0, len(xs))
+//@ panics iff !valid
+//@ writes nothing
+//@ ensures len(result) == len(xs)-1 && fresh(result)
+//@ ensures (forall(k, 0, len(xs)-1, same(result[k], (ys[k+1]-ys[k])/(xs[k+1]-xs[k]))))
+//@ loop 1: invariant stepsPositive(xs, 0, len(xs)) == stepsPositive(xs, i, len(xs))
+//@ invariant same(prevX, xs[i]) && same(prevY, ys[i])
+//@ invariant (forall(k, 0, i, same(slopes[k], (ys[k+1]-ys[k])/(xs[k+1]-xs[k]))))
+
+// (that pl.slopes still holds the values returned by calculateSlopes after the two copies is not
+// stated: the clause "forall k: pl.slopes[k] == (ys[k+1]-ys[k])/(xs[k+1]-xs[k])" stays undecided,
+// 200 s, all solvers unknown)
+//@ func PiecewiseLinear.Fit props: C18
+//@ option delegate-panics
+//@ requires pl != nil
+//@ valid len(ys) == len(xs) && len(xs) >= 2 && stepsPositive(xs, 0, len(xs))
+//@ panics iff !valid, before-writes
+//@ modifies pl
+//@ ensures len(pl.xs) == len(xs) && len(pl.ys) == len(xs) && len(pl.slopes) == len(xs)-1
+//@ ensures (forall(k, 0, len(xs), same(pl.xs[k], xs[k]) && same(pl.ys[k], ys[k])))
+
+// ---- Predict ----------------------------------------------------------------------
+//
+// findSegment calls slices.BinarySearch, which is outside the checker's subset
+// ("OUTSIDE-SUBSET: call to slices.BinarySearch: no contract and no body"). Its contract below
+// is TRUSTED (assumed, body not checked): the model of the library search. The result is an
+// index in [-1, len(xs)) for every input (NaN included); in exact arithmetic, for strictly
+// increasing xs, it is the number of knots <= x, minus 1. This is the doc comment of
+// findSegment ("xs[i] <= x < xs[i+1] ... -1 if there is none") combined with monotonicity.
+//
+// Predict requires a fitted predictor (the lengths established by Fit; Predict of a zero
+// PiecewiseLinear / PiecewiseConstant faults with index out of range [0], reproduced). Then no
+// index fault for any x, NaN included (first pass, opaque floats). In exact arithmetic, for
+// strictly increasing knots: the data is reproduced at every knot; between two knots
+// PiecewiseLinear returns ys[k] + slopes[k]*(x-xs[k]) and PiecewiseConstant the value at the
+// right knot (left-continuous); left of the first knot the first value, right of the last knot
+// the last value (the package documentation leaves extrapolation undefined, the tests pin
+// this constant continuation).
+
+//@ spec strictlyIncreasing(s []float64) bool = forall(i, 0, len(s), forall(j, i+1, len(s), s[i] < s[j]))
+
+//@ trusted findSegment
+//@ writes nothing
+//@ ensures -1 <= result && result < len(xs)
+//@ ensures [real] strictlyIncreasing(xs) ==> forall(k, 0, len(xs), (k <= result) == (xs[k] <= x))
+
+//@ func PiecewiseLinear.Predict props: C18
+//@ requires len(pl.xs) >= 2 && len(pl.ys) == len(pl.xs) && len(pl.slopes) == len(pl.xs)-1
+//@ writes nothing
+//@ ensures [real] strictlyIncreasing(pl.xs) ==> forall(k, 0, len(pl.xs), x == pl.xs[k] ==> result == pl.ys[k])
+//@ ensures [real] strictlyIncreasing(pl.xs) ==> forall(k, 0, len(pl.xs)-1, pl.xs[k] < x && x < pl.xs[k+1] ==> result == pl.ys[k] + pl.slopes[k]*(x-pl.xs[k]))
+//@ ensures [real] strictlyIncreasing(pl.xs) && x < pl.xs[0] ==> result == pl.ys[0]
+//@ ensures [real] strictlyIncreasing(pl.xs) && x > pl.xs[len(pl.xs)-1] ==> result == pl.ys[len(pl.ys)-1]
+
+//@ func PiecewiseConstant.Predict props: C18
+//@ requires len(pc.xs) >= 2 && len(pc.ys) == len(pc.xs)
+//@ writes nothing
+//@ ensures [real] strictlyIncreasing(pc.xs) ==> forall(k, 0, len(pc.xs), x == pc.xs[k] ==> result == pc.ys[k])
+//@ ensures [real] strictlyIncreasing(pc.xs) ==> forall(k, 0, len(pc.xs)-1, pc.xs[k] < x && x < pc.xs[k+1] ==> result == pc.ys[k+1])
+//@ ensures [real] strictlyIncreasing(pc.xs) && x < pc.xs[0] ==> result == pc.ys[0]
+//@ ensures [real] strictlyIncreasing(pc.xs) && x > pc.xs[len(pc.xs)-1] ==> result == pc.ys[len(pc.ys)-1]
+
+// with the slope of its segment the linear interpolant also reaches the right knot: continuity,
+// and reproduction of affine data (exact arithmetic)
+//@ lemma linear_segment_reaches_right_knot props: C18
+//@ floats: real
+//@ var x0 float64, x1 float64, y0 float64, y1 float64, s float64
+//@ hyp x1 > x0 && s == (y1-y0)/(x1-x0)
+//@ goal y0 + s*(x1-x0) == y1
